@@ -193,6 +193,60 @@ def forms_case(acc, c):
                         acc.violation(V("wrong_cause", f"'{expr}': __cause__ is {exc.__cause__!r}, expected a {cause_t}", form=expr), case, (), res.trace, src)
 
 
+RETURNED_EXC_SRC = '''
+from tawazi import xn, dag, Resource
+
+class Signal(BaseException):
+    pass
+
+@xn(resource=Resource.{res})
+def validator(v):
+    return ValueError("returned, not raised")
+
+@xn(resource=Resource.{res})
+def signal(v):
+    return Signal("returned, not raised")
+
+@xn
+def consumer(e, s):
+    return ("seen", type(e).__name__, type(s).__name__)
+
+@dag(max_concurrency={mc}, is_async={is_async})
+def d(x):
+    e = validator(x)
+    s = signal(x)
+    c = consumer(e, s)
+    return e, s, c
+'''
+
+
+def returned_exception_case(acc, c):
+    """an exception OBJECT is a legal return value: only a node that RAISES fails the call"""
+    from .. import harness as H
+    from ..build import exec_source
+    from ..monitors import V
+    acc.cases += 1
+    for res_ in ("thread", "async_thread", "main_thread"):
+        for mc in (1, 2):
+            for is_async in (False, True):
+                src = RETURNED_EXC_SRC.format(res=res_, mc=mc, is_async=is_async)
+                d = exec_source(src)["d"]
+                if is_async:
+                    async def op():
+                        return await d(7)
+                else:
+                    def op():
+                        return d(7)
+                r = H.run_controlled(op, is_async=is_async)
+                acc.evaluations += 1
+                acc.mark_nontrivial(("returned_exc", res_, mc, is_async))
+                ok = (r.outcome == "return" and isinstance(r.value, tuple) and len(r.value) == 3 and type(r.value[0]).__name__ == "ValueError"
+                      and type(r.value[1]).__name__ == "Signal" and r.value[2] == ("seen", "ValueError", "Signal"))
+                if not ok:
+                    acc.violation(V("returned_exception_treated_as_failure", f"{res_} nodes RETURN exception objects (nothing raises): call gave {r.outcome} {r.value!r} {r.exc!r}",
+                                    resource=res_), dict(c, res=res_, mc=mc, is_async=is_async), (), r.trace, src)
+
+
 def nontrivial(view):
     # a sibling (neither ancestor nor descendant of the failing node) was in flight or ready when the failure was observed
     from ..monitors import failure_observed_at
@@ -210,14 +264,22 @@ def run_shard(tier, k, n, acc):
     its = [cases(tier), early_cases(tier), attr_cases(tier), cross_families(tier)]
     if tier != "quick":
         its.append(foreign_quick_cases("c14"))
-    for c in shard_iter(itertools.chain([dict(special="forms")], *its), k, n, acc):
+    for c in shard_iter(itertools.chain([dict(special="forms"), dict(special="returned_exc")], *its), k, n, acc):
         if c.get("special") == "forms":
             forms_case(acc, c)
+            continue
+        if c.get("special") == "returned_exc":
+            returned_exception_case(acc, c)
             continue
         run_case(acc, c, MONITORS, nontrivial)
 
 
 def replay(v):
+    if v["case"].get("special") == "returned_exc":
+        from ..acc import Acc
+        a = Acc(ID, 0, 1, 600)
+        returned_exception_case(a, dict(special="returned_exc"))
+        return a.violations, None
     if v["case"].get("special") == "forms":
         from ..acc import Acc
         a = Acc(ID, 0, 1, 600)
